@@ -1,5 +1,6 @@
 import PlumpyModel.Props.C06
 import PlumpyModel.PM.Proof8
+import PlumpyModel.PM.Proof13c
 /-!
 # C10 — ToContext is a barrier: the next step sees every awaited result
 
@@ -9,15 +10,25 @@ state's done-callback, `ready` the scheduled callbacks (`Cb.adone f` = `_awaitab
 asyncio when `f` completes, run by a tick in ANY order).  `awaitableDone` is `_awaitable_done`, `wake` is
 `Waiting.execute` after its future completed.
 
-The theorems are the barrier's mechanism, for every configuration: a completed item is stored under its key and removed
+The first theorems are the barrier's mechanism, for every configuration: a completed item is stored under its key and removed
 from the awaiting set, the wait itself completes only when the set is empty, a failed item fails the wait, and a failed
 wait excepts the process without activating another step.  The barrier itself is a theorem over whole histories
-(`C10_barrier`): in every configuration reachable by any history of ticks, completions (in any order and placement),
-pause / play / kill / fail / cancel / call_soon events — everything except an external `resume()` on the workchain,
-which would bypass the barrier by design — the wait of the current WAITING state holds (or has parked) a result only
-when NOTHING is awaited any more; since the next outline step is activated only by a wait that holds a result
-(`Waiting.execute`), it starts only after every awaited item was processed by `_awaitable_done`.  That the processed
-results are all found in the context under their keys is decided by the correspondence check and the Python monitor.
+(`C10_barrier`, `C10_barrier_resume_ok`): in every configuration reachable by any history of ticks, completions (in any order
+and placement), pause / play / kill / fail / cancel / call_soon events and harmless `resume()`s — a `resume()` placed while
+something is still awaited bypasses the barrier, in the model as in the library (`C10_witness_resume_bypasses_barrier`) — the
+wait of the current WAITING state holds (or has parked) a result only when NOTHING is awaited any more; since the next outline
+step is activated only by a wait that holds a result (`Waiting.execute`), it starts only after every awaited item was processed
+by `_awaitable_done`.
+
+The second half of the file is about what that step finds (section "History level"):
+`C10_next_step_finds_every_result` / `C10_next_step_finds_result_under_its_key` — the activation that follows a wait is the
+wait's continuation, and at that moment the context maps the key of every awaitable of the wait to the result of its future, an
+earlier value under that key having been replaced (`C10_context_is_a_map`: the context has one binding per key, always);
+`C10_failed_item_never_activates` / `C10_held_failure_excepts` — if an awaited item failed or was killed and its callback was
+processed first, nothing is ever activated again and the chain ends EXCEPTED with exactly that error.  Their hypotheses
+(`B10.AwDistinct`, `B10.histOk`, `H6.histFuelOk`) are each shown necessary in the model by a witness.  Both registration styles
+(`to_context` / returned `ToContext`), children launched for real and `no_loop_errors` are decided by the correspondence check
+and the Python monitor.
 -/
 namespace PMF
 
@@ -102,6 +113,350 @@ theorem C10_wait_index_valid (P : Prog) (nf : Nat) (evs : List Ev) (hnr : ∀ e 
     (fn wf : Nat) (wk : Option WF) (aw : List (Nat × Nat)) (hst : (run P (init nf) evs).st = .waiting fn wf wk aw) :
     wf < (run P (init nf) evs).wfs.length :=
   (run_invB P (init nf) evs (invB_init nf) hnr fn wf wk aw hst).1
+
+/-! ## History level: what the next step finds in the context, failures, `resume()`
+
+Helper lemmas: `PM/Proof13.lean` (no stale callbacks, `B10.G`), `PM/Proof13b.lean` (`B10.Bar`: what becomes of one wait),
+`PM/Proof13c.lean` (a held failure excepts; the context is a map).  Hypotheses on the history, all decidable `Bool`
+functions of the program and the history (see the examples at the end):
+
+* `H6.histFuelOk` — no callback of the stepping task runs out of the model's fuel (as for C06, and needed for the same
+  reason: a stale program counter would let the model's next tick leave the wait without its results);
+* `B10.histOk` — a `resume()` is placed only while the current state awaits nothing (`C10_barrier_full_is_false`: the model,
+  like `Waiting.resume` of the library, lets `resume()` complete the wait of a work chain whatever is still awaited), and
+  no awaitable is "completed" with the outcome `pending`;
+
+and on the program: `B10.AwDistinct P` — one `ToContext` never awaits the same future twice (the awaiting map
+`Waiting._awaiting` is a `dict` keyed by the future). -/
+
+/-- the awaitable `(f, k)` of the wait on `aw0` is found in the context: `f` completed with a value `v`, and the context
+binds `k` to `v` — or, if the same key was given to several futures of this wait, to the value of another one of them
+(the assignment processed last replaces the earlier one) -/
+def FoundInCtx (aw0 : List (Nat × Nat)) (c : Cfg) (f k : Nat) : Prop :=
+  ∃ v, c.efs[f]? = some (.result v) ∧
+    ((k, v) ∈ c.ctx ∨ ∃ f' v', f' ≠ f ∧ (f', k) ∈ aw0 ∧ c.efs[f']? = some (.result v') ∧ (k, v') ∈ c.ctx)
+
+/-- **the context is a map, whatever the history**: its keys are pairwise distinct — `_awaitable_done` REPLACES the value
+stored under a key (`C10_done_stores_and_waits`), so a later assignment (of a later step, or of the same wait) leaves exactly
+one binding of the key; `(k, v) ∈ ctx` therefore means "the context maps `k` to `v`" (`C10_ctx_lookup`). -/
+theorem C10_context_is_a_map (P : Prog) (nf : Nat) (evs : List Ev) : ((run P (init nf) evs).ctx.map (·.1)).Nodup :=
+  B10.run_ctxOk P (init nf) evs (B10.ctxOk_init nf)
+
+/-- reading the context: a binding that is in the context is THE binding of its key -/
+theorem C10_ctx_lookup (P : Prog) (nf : Nat) (evs : List Ev) (k : Nat) (v : Val) (h : (k, v) ∈ (run P (init nf) evs).ctx) :
+    (run P (init nf) evs).ctx.find? (·.1 = k) = some (k, v) ∧ ∀ u, (k, u) ∈ (run P (init nf) evs).ctx → u = v :=
+  ⟨B10.ctx_lookup_of_mem _ k v (C10_context_is_a_map P nf evs) h,
+   fun u hu => B10.ctx_unique _ k v u (C10_context_is_a_map P nf evs) h hu⟩
+
+/-- **(1) context contents — the step after the barrier finds every awaited result under its key.**
+Take any program whose `ToContext`s name distinct futures, any number of external futures, and any history split as
+`pre ++ mid ++ [e]` (well formed, no callback out of fuel) such that
+
+* after `pre` the chain is WAITING for continuation `fn` on the awaitables `aw0` and nothing has been delivered to that
+  wait yet (e.g. `pre` ends with the callback in which the `waitOn` step returned),
+* during `mid` no step is activated (the trace of user calls does not grow),
+* the event `e` logs an activation.
+
+Then `e` is a callback of the stepping task; the FIRST activation it logs is the continuation `fn` of that wait (so the
+step following the barrier starts here, and nothing else started in between); the context is not touched by that callback
+(`run … (pre ++ mid)` and `run … (pre ++ mid ++ [e])` have the same `ctx`: it is the context the step function is called
+with); and for EVERY awaitable `(f, k)` of `aw0`, `f` completed with a value and the context maps `k` to it
+(`FoundInCtx`; "maps" by `C10_context_is_a_map`).  In particular every awaited future completed with a RESULT: had one
+failed, no activation would be logged (`C10_failed_item_never_activates`). -/
+theorem C10_next_step_finds_every_result (P : Prog) (hP : B10.AwDistinct P) (nf : Nat) (pre mid : List Ev) (e : Ev)
+    (hfuel : H6.histFuelOk P (init nf) (pre ++ mid ++ [e]) = true)
+    (hok : B10.histOk P (init nf) (pre ++ mid ++ [e]) = true)
+    (fn wf : Nat) (aw0 : List (Nat × Nat))
+    (hst : (run P (init nf) pre).st = .waiting fn wf none aw0)
+    (hu : (run P (init nf) pre).wfs[wf]? = some .pending ∨ ∃ j, (run P (init nf) pre).wfs[wf]? = some (.interrupted j))
+    (hquiet : (run P (init nf) (pre ++ mid)).trace = (run P (init nf) pre).trace)
+    (hact : (run P (init nf) (pre ++ mid ++ [e])).trace ≠ (run P (init nf) (pre ++ mid)).trace) :
+    e = .tick ∧
+    (run P (init nf) (pre ++ mid ++ [e])).ctx = (run P (init nf) (pre ++ mid)).ctx ∧
+    (∃ v extra, (run P (init nf) (pre ++ mid ++ [e])).trace =
+        extra ++ H6.actOf fn v :: (run P (init nf) (pre ++ mid)).trace) ∧
+    ∀ f k, (f, k) ∈ aw0 → FoundInCtx aw0 (run P (init nf) (pre ++ mid)) f k := by
+  rw [H6.histFuelOk_append, H6.histFuelOk_append, Bool.and_eq_true, Bool.and_eq_true] at hfuel
+  rw [B10.histOk_append, B10.histOk_append, Bool.and_eq_true, Bool.and_eq_true] at hok
+  obtain ⟨⟨hf1, hf2⟩, hf3⟩ := hfuel
+  obtain ⟨⟨hk1, hk2⟩, hk3⟩ := hok
+  have hR1 := B10.run_reach P hP _ pre (B10.reach_init nf) hf1 hk1
+  have hB1 := B10.bar_init (run P (init nf) pre) hst hu
+  have hrun2 : run P (init nf) (pre ++ mid) = run P (run P (init nf) pre) mid := H6.run_append ..
+  have hR2 := B10.run_reach P hP _ mid hR1 hf2 hk2
+  have hB2 := B10.run_bar P hP _ mid hR1 hf2 hk2 hB1
+  rw [← hrun2] at hR2 hB2
+  have hrun3 : run P (init nf) (pre ++ mid ++ [e]) = (step P (run P (init nf) (pre ++ mid)) e).1 := by
+    rw [H6.run_append]; rfl
+  have hke : B10.evOk (run P (init nf) (pre ++ mid)) e = true := by
+    unfold B10.histOk at hk3; rw [Bool.and_eq_true] at hk3; exact hk3.1
+  rw [hrun3] at hact ⊢
+  have he : e = .tick := by
+    cases hte : decide (e = .tick) with
+    | true => exact of_decide_eq_true hte
+    | false => exact absurd (B10.step_trace_of_ne_tick P _ e (of_decide_eq_false hte)) hact
+  obtain ⟨v, extra, htr, hall⟩ := B10.bar_activation P hP _ e hR2 hke hB2 hquiet hact
+  refine ⟨he, ?_, ⟨v, extra, by rw [htr, hquiet]⟩, ?_⟩
+  · subst he
+    exact B10.tickStepper_ctx P _
+  · intro f k hk
+    obtain ⟨⟨v, hv⟩, f', v', h1, h2, h3⟩ := hall f k hk
+    refine ⟨v, hv, ?_⟩
+    by_cases hff : f' = f
+    · subst hff; rw [hv] at h2; cases h2; exact Or.inl h3
+    · exact Or.inr ⟨f', v', hff, h1, h2, h3⟩
+
+/-- … and if the key `k` was given to one future only (what `ToContext(**kwargs)` guarantees), the context maps `k` to
+exactly the result of `f`: whatever was stored under `k` before — by an earlier step, say — has been replaced. -/
+theorem C10_next_step_finds_result_under_its_key (P : Prog) (hP : B10.AwDistinct P) (nf : Nat) (pre mid : List Ev) (e : Ev)
+    (hfuel : H6.histFuelOk P (init nf) (pre ++ mid ++ [e]) = true)
+    (hok : B10.histOk P (init nf) (pre ++ mid ++ [e]) = true)
+    (fn wf : Nat) (aw0 : List (Nat × Nat))
+    (hst : (run P (init nf) pre).st = .waiting fn wf none aw0)
+    (hu : (run P (init nf) pre).wfs[wf]? = some .pending ∨ ∃ j, (run P (init nf) pre).wfs[wf]? = some (.interrupted j))
+    (hquiet : (run P (init nf) (pre ++ mid)).trace = (run P (init nf) pre).trace)
+    (hact : (run P (init nf) (pre ++ mid ++ [e])).trace ≠ (run P (init nf) (pre ++ mid)).trace)
+    (f k : Nat) (hin : (f, k) ∈ aw0) (honce : ∀ f', (f', k) ∈ aw0 → f' = f) :
+    ∃ v, (run P (init nf) (pre ++ mid)).efs[f]? = some (.result v) ∧
+      (run P (init nf) (pre ++ mid ++ [e])).ctx.find? (·.1 = k) = some (k, v) ∧
+      ∀ u, (k, u) ∈ (run P (init nf) (pre ++ mid ++ [e])).ctx → u = v := by
+  obtain ⟨_, hctx, _, hall⟩ := C10_next_step_finds_every_result P hP nf pre mid e hfuel hok fn wf aw0 hst hu hquiet hact
+  obtain ⟨v, hv, hm | ⟨f', v', hne, h1, _, _⟩⟩ := hall f k hin
+  · rw [hctx]
+    exact ⟨v, hv, C10_ctx_lookup P nf (pre ++ mid) k v hm⟩
+  · exact absurd (honce f' h1) hne
+
+/-- **(2) failure, safety — a processed failure is never lost and nothing is activated after it.**
+Split any history (well formed, no callback out of fuel) at the done-callback of an awaited future `f` that completed with
+the exception `e` (a failed or killed child) — processed while the chain is WAITING for `fn` on a set containing `f` and
+nothing has been delivered to the wait yet (so `e` is the FIRST processed outcome that completes the wait).  Whatever follows
+(`mid`: the other awaitables completing and being processed in any order, also with further failures, pause / play /
+interruptions that re-arm the wait, kill, fail, resume, ticks): NO activation is ever logged again for this wait — the trace
+of user calls stays what it was — and the process is still WAITING for `fn` with its wait holding the failure `e`
+(`B10.HoldsF`: in the future, or parked behind an interruption), or it has terminated.  `C10_held_failure_excepts` says how
+it terminates. -/
+theorem C10_failed_item_never_activates (P : Prog) (hP : B10.AwDistinct P) (nf : Nat) (pre mid : List Ev) (f : Nat)
+    (hfuel : H6.histFuelOk P (init nf) (pre ++ .tickCb (.adone f) :: mid) = true)
+    (hok : B10.histOk P (init nf) (pre ++ .tickCb (.adone f) :: mid) = true)
+    (fn wf k : Nat) (aw : List (Nat × Nat)) (e : Exc)
+    (hst : (run P (init nf) pre).st = .waiting fn wf none aw)
+    (hu : (run P (init nf) pre).wfs[wf]? = some .pending ∨ ∃ j, (run P (init nf) pre).wfs[wf]? = some (.interrupted j))
+    (hin : (f, k) ∈ aw) (hexc : (run P (init nf) pre).efs[f]? = some (.exc e))
+    (hsched : Cb.adone f ∈ (run P (init nf) pre).ready) :
+    (run P (init nf) (pre ++ .tickCb (.adone f) :: mid)).trace = (run P (init nf) pre).trace ∧
+    (terminal (run P (init nf) (pre ++ .tickCb (.adone f) :: mid)).st.label = true ∨
+     ∃ wf' wk' aw', (run P (init nf) (pre ++ .tickCb (.adone f) :: mid)).st = .waiting fn wf' wk' aw' ∧
+        B10.HoldsF (run P (init nf) (pre ++ .tickCb (.adone f) :: mid)) wf' wk' e) := by
+  rw [H6.histFuelOk_append, Bool.and_eq_true] at hfuel
+  rw [B10.histOk_append, Bool.and_eq_true] at hok
+  have hR1 := B10.run_reach P hP _ pre (B10.reach_init nf) hfuel.1 hok.1
+  have hF := B10.adone_exc_held (run P (init nf) pre) f k e hR1 wf aw hst hu hin hexc hsched
+  have hf2 := hfuel.2
+  unfold H6.histFuelOk at hf2
+  rw [Bool.and_eq_true] at hf2
+  have hC2 := H6.step_coh P _ (.tickCb (.adone f)) hR1.coh (by intro h; cases h)
+  have hrun : run P (init nf) (pre ++ .tickCb (.adone f) :: mid) =
+      run P (tickCb (run P (init nf) pre) (.adone f)) mid := by rw [H6.run_append]; rfl
+  have hD := B10.run_faild P _ mid hC2 hf2.2 hF
+  rw [hrun]
+  cases hD with
+  | held wf' wk' aw' hst' hh ht => exact ⟨ht, Or.inr ⟨wf', wk', aw', hst', hh⟩⟩
+  | over hterm ht => exact ⟨ht, Or.inl hterm⟩
+
+/-- **(2) failure, delivery — the chain ends EXCEPTED with that error.**  In EVERY configuration reachable by a history in
+which no callback ran out of fuel: if the chain is WAITING and its wait holds the failure `e`, and the process is playing
+(not paused, no pause or kill request pending — a pending kill rightly wins, C04), then ONE callback of the stepping task
+ends the process EXCEPTED with exactly `e`, without logging any activation: the step following the barrier never runs
+(EXCEPTED is terminal: C01). -/
+theorem C10_held_failure_excepts (P : Prog) (nf : Nat) (evs : List Ev) (hfuel : H6.histFuelOk P (init nf) evs = true)
+    (fn wf : Nat) (wk : Option WF) (aw : List (Nat × Nat)) (e : Exc)
+    (hst : (run P (init nf) evs).st = .waiting fn wf wk aw) (hh : B10.HoldsF (run P (init nf) evs) wf wk e)
+    (hpa : (run P (init nf) evs).paused = none) (hpi : (run P (init nf) evs).pausing = none)
+    (hk : (run P (init nf) evs).killing = none) :
+    (ticks P 1 (run P (init nf) evs)).st = .excepted e ∧
+    (ticks P 1 (run P (init nf) evs)).trace = (run P (init nf) evs).trace :=
+  B10.tick_fails P _ fn wf wk aw e (H6.run_coh P _ evs (H6.coh_init nf) hfuel) hst hh hpa hpi hk
+
+/-- **(3) `resume()`: the barrier for histories with harmless resumes.**  `C10_barrier` with its hypothesis "no `resume()`"
+weakened to `B10.histOk`: every `resume()` of the history is placed while the current state awaits nothing (a plain wait, a
+chain between waits, a wait whose awaitables were all processed; on a process that is not WAITING it is refused anyway,
+`C06_resume_refused_when_not_waiting`). -/
+theorem C10_barrier_resume_ok (P : Prog) (nf : Nat) (evs : List Ev) (hok : B10.histOk P (init nf) evs = true)
+    (fn wf : Nat) (wk : Option WF) (aw : List (Nat × Nat)) (hst : (run P (init nf) evs).st = .waiting fn wf wk aw)
+    (hres : (∃ v, (run P (init nf) evs).wfs[wf]? = some (.result v)) ∨ (∃ v, wk = some (.result v))) : aw = [] := by
+  have h := B10.run_invB_ok P (init nf) evs (invB_init nf) hok fn wf wk aw hst
+  apply h.2
+  rcases hres with ⟨v, hv⟩ | ⟨v, hv⟩
+  · left; rw [hv]; rfl
+  · right; rw [hv]; rfl
+
+/-- the hypothesis of `C10_barrier` follows from that of `C10_barrier_resume_ok` -/
+theorem C10_no_resume_is_ok (P : Prog) (nf : Nat) (evs : List Ev) (hnr : ∀ e ∈ evs, ∀ v, e ≠ .resume v)
+    (hnp : ∀ e ∈ evs, ∀ f, e ≠ .complete f .pending) : B10.histOk P (init nf) evs = true :=
+  B10.histOk_of_no_resume P (init nf) evs hnr hnp
+
+/-- the barrier statement with NO hypothesis on the history (kept as a statement: it is FALSE, see below) -/
+def C10_barrier_full : Prop :=
+  ∀ (P : Prog) (nf : Nat) (evs : List Ev) (fn wf : Nat) (wk : Option WF) (aw : List (Nat × Nat)),
+    (run P (init nf) evs).st = .waiting fn wf wk aw →
+    ((∃ v, (run P (init nf) evs).wfs[wf]? = some (.result v)) ∨ (∃ v, wk = some (.result v))) → aw = []
+
+/-- **why the `resume()` restriction cannot simply be dropped** (a property of the MODEL that mirrors the library:
+`Process.resume` → `Waiting.resume` → `_deliver(True, value)` does not look at the awaiting map): on `Chain2`, a `resume()`
+placed while futures 0 and 1 are still awaited (`B10.Chain2`, the corpus program `Chain2` of harness/pm.py) completes the wait — the wait holds a result with both still awaited — and
+the next tick activates step 1 with an EMPTY context. -/
+theorem C10_witness_resume_bypasses_barrier :
+    (run B10.Chain2 (init 3) [.tick, .resume none]).st = .waiting 1 0 none [(0, 0), (1, 1)] ∧
+    (run B10.Chain2 (init 3) [.tick, .resume none]).wfs[0]? = some (.result none) ∧
+    ((run B10.Chain2 (init 3) [.tick, .resume none, .tick]).trace.map fun a => a.fn) = [1, 0] ∧
+    (run B10.Chain2 (init 3) [.tick, .resume none, .tick]).ctx = [] ∧
+    B10.histOk B10.Chain2 (init 3) [.tick, .resume none] = false := by decide +kernel
+
+theorem C10_barrier_full_is_false : ¬ C10_barrier_full := by
+  intro h
+  have hw := C10_witness_resume_bypasses_barrier
+  have := h B10.Chain2 3 [.tick, .resume none] 1 0 none [(0, 0), (1, 1)] hw.1 (Or.inl ⟨none, hw.2.1⟩)
+  cases this
+
+/-- `C10_next_step_finds_every_result` without its three hypotheses on the program and the history (kept as a statement:
+it is FALSE of the model — `C10_next_step_full_is_false` — and each hypothesis is needed, see the witnesses below) -/
+def C10_next_step_finds_every_result_full : Prop :=
+  ∀ (P : Prog) (nf : Nat) (pre mid : List Ev) (e : Ev) (fn wf : Nat) (aw0 : List (Nat × Nat)),
+    (run P (init nf) pre).st = .waiting fn wf none aw0 →
+    ((run P (init nf) pre).wfs[wf]? = some .pending ∨ ∃ j, (run P (init nf) pre).wfs[wf]? = some (.interrupted j)) →
+    (run P (init nf) (pre ++ mid)).trace = (run P (init nf) pre).trace →
+    (run P (init nf) (pre ++ mid ++ [e])).trace ≠ (run P (init nf) (pre ++ mid)).trace →
+    ∀ f k, (f, k) ∈ aw0 → FoundInCtx aw0 (run P (init nf) (pre ++ mid)) f k
+
+/-- refuted by the `resume()` that bypasses the barrier: step 1 of `Chain2` is activated while future 0 is still pending -/
+theorem C10_next_step_full_is_false : ¬ C10_next_step_finds_every_result_full := by
+  intro h
+  have hw := C10_witness_resume_bypasses_barrier
+  have h1 : (run B10.Chain2 (init 3) [.tick]).st = .waiting 1 0 none [(0, 0), (1, 1)] ∧
+      (run B10.Chain2 (init 3) [.tick]).wfs[0]? = some .pending ∧
+      (run B10.Chain2 (init 3) ([.tick] ++ [.resume none])).trace = (run B10.Chain2 (init 3) [.tick]).trace ∧
+      (run B10.Chain2 (init 3) ([.tick] ++ [.resume none] ++ [.tick])).trace ≠
+        (run B10.Chain2 (init 3) ([.tick] ++ [.resume none])).trace ∧
+      (run B10.Chain2 (init 3) ([.tick] ++ [.resume none])).efs[0]? = some .pending := by decide +kernel
+  obtain ⟨v, hv, _⟩ := h B10.Chain2 3 [.tick] [.resume none] .tick 1 0 [(0, 0), (1, 1)] h1.1 (Or.inl h1.2.1) h1.2.2.1
+    h1.2.2.2.1 0 0 (by simp)
+  rw [h1.2.2.2.2] at hv; cases hv
+
+/-- **why `B10.AwDistinct` is a hypothesis** (a property of the MODEL: its awaiting set is a list, the library's a `dict`
+that cannot hold a future twice): a `waitOn` naming future 0 under the keys 0 and 1 registers two callbacks; the first one
+removes BOTH entries, completes the wait, and step 1 is activated with key 1 missing from the context. -/
+theorem C10_witness_duplicate_future :
+    let P : Prog := fun fn _ _ _ => if fn = 0 then ⟨0, .ret (.waitOn 1 [(0, 0), (0, 1)])⟩ else ⟨0, .ret (.stop none true)⟩
+    ((run P (init 1) [.tick, .complete 0 (.result 7), .tickCb (.adone 0), .tick]).trace.map fun a => a.fn) = [1, 0] ∧
+    (run P (init 1) [.tick, .complete 0 (.result 7), .tickCb (.adone 0)]).ctx = [(0, 7)] ∧
+    H6.histFuelOk P (init 1) [.tick, .complete 0 (.result 7), .tickCb (.adone 0), .tick] = true ∧
+    B10.histOk P (init 1) [.tick, .complete 0 (.result 7), .tickCb (.adone 0), .tick] = true := by decide +kernel
+
+/-- **why `B10.histOk` excludes `complete f pending`** (a property of the MODEL's event alphabet: "complete with the outcome
+pending" schedules the done-callback of a future that is not done; no run of the library corresponds to it): the callback
+removes the future from the awaiting set without storing anything; when the other awaitable of `Chain2` has been processed,
+step 1 is activated with key 0 missing from the context. -/
+theorem C10_witness_pending_completion :
+    ((run B10.Chain2 (init 3) [.tick, .complete 0 .pending, .tickCb (.adone 0), .complete 1 (.result 11), .tickCb (.adone 1),
+      .tick]).trace.map fun a => a.fn) = [1, 0] ∧
+    (run B10.Chain2 (init 3) [.tick, .complete 0 .pending, .tickCb (.adone 0), .complete 1 (.result 11),
+      .tickCb (.adone 1)]).ctx = [(1, 11)] ∧
+    H6.histFuelOk B10.Chain2 (init 3) [.tick, .complete 0 .pending, .tickCb (.adone 0), .complete 1 (.result 11),
+      .tickCb (.adone 1), .tick] = true ∧
+    B10.histOk B10.Chain2 (init 3) [.tick, .complete 0 .pending, .tickCb (.adone 0), .complete 1 (.result 11),
+      .tickCb (.adone 1), .tick] = false := by decide +kernel
+
+/-- a chain of exactly `fuel0` synchronous steps between a plain wait and a `waitOn`: fn 0 waits for fn 1, fn 1 … fn 999
+continue with the next one, fn 1000 awaits future 0 under key 0 for fn 1001, which stops -/
+def fuelWitness10 : Prog := fun fn _ _ _ =>
+  if fn = 0 then ⟨0, .ret (.wait 1)⟩ else if fn < 1000 then ⟨0, .ret (.cont (fn + 1) [] [])⟩
+  else if fn = 1000 then ⟨0, .ret (.waitOn 1001 [(0, 0)])⟩ else ⟨0, .ret (.stop none true)⟩
+
+/-- **why `H6.histFuelOk` is a hypothesis** (a property of the MODEL, as for C06): the callback that consumes `resume(7)` runs
+out of fuel exactly when the `waitOn` state has been entered and returns with the stale program counter "awaiting future
+0 of the FIRST wait"; the model's next tick wakes the NEW wait with the old value: fn 1001 is activated although future 0 is
+still pending, with an empty context.  The history is well formed (`histOk`: the `resume()` is placed on a plain wait). -/
+theorem C10_witness_fuel_exhaustion :
+    (run fuelWitness10 (init 1) [.tick, .resume (some 7), .tick]).st = .waiting 1001 1 none [(0, 0)] ∧
+    (run fuelWitness10 (init 1) [.tick, .resume (some 7), .tick]).wfs[1]? = some .pending ∧
+    (((run fuelWitness10 (init 1) [.tick, .resume (some 7), .tick, .tick]).trace.take 1).map fun a => a.fn) = [1001] ∧
+    (run fuelWitness10 (init 1) [.tick, .resume (some 7), .tick]).efs[0]? = some .pending ∧
+    (run fuelWitness10 (init 1) [.tick, .resume (some 7), .tick, .tick]).ctx = [] ∧
+    H6.histFuelOk fuelWitness10 (init 1) [.tick, .resume (some 7), .tick, .tick] = false ∧
+    B10.histOk fuelWitness10 (init 1) [.tick, .resume (some 7), .tick, .tick] = true := by decide +kernel
+
+-- non-vacuity of the history-level theorems, on the corpus programs `Chain` and `Chain2` of harness/pm.py
+section
+open B10 (Chain Chain2 chain_awDistinct chain2_awDistinct)
+
+-- `Chain2`, first wait: futures complete in the order 1, 0, their callbacks run in that order, then the stepping task runs.
+-- All hypotheses of `C10_next_step_finds_every_result` hold for pre = [tick], mid = the four events, e = tick …
+example : ∀ f k, (f, k) ∈ [(0, 0), (1, 1)] → FoundInCtx [(0, 0), (1, 1)]
+    (run Chain2 (init 3) ([.tick] ++ [.complete 1 (.result 11), .complete 0 (.result 10), .tickCb (.adone 1), .tickCb (.adone 0)])) f k :=
+  (C10_next_step_finds_every_result Chain2 chain2_awDistinct 3 [.tick]
+    [.complete 1 (.result 11), .complete 0 (.result 10), .tickCb (.adone 1), .tickCb (.adone 0)] .tick
+    (by decide +kernel) (by decide +kernel) 1 0 [(0, 0), (1, 1)] (by decide +kernel) (Or.inl (by decide +kernel))
+    (by decide +kernel) (by decide +kernel)).2.2.2
+-- … and this is what it looks like: step 1 is activated by that tick, with both results in the context
+example : let c := run Chain2 (init 3) [.tick, .complete 1 (.result 11), .complete 0 (.result 10), .tickCb (.adone 1),
+      .tickCb (.adone 0), .tick]
+    (c.trace.map fun a => a.fn) = [1, 0] ∧ c.ctx = [(0, 10), (1, 11)] ∧ c.st = .waiting 2 1 none [(2, 0)] := by
+  decide +kernel
+-- second wait of `Chain2`: key 0 is assigned AGAIN (future 2); `C10_next_step_finds_result_under_its_key` applies to
+-- pre = the history above (the chain has just entered the wait on [(2, 0)]), mid = [complete 2, adone 2], e = tick:
+-- step 2 finds 12 under key 0 — the 10 stored by the first wait has been replaced
+example : ∃ v, (run Chain2 (init 3) ([.tick, .complete 1 (.result 11), .complete 0 (.result 10), .tickCb (.adone 1),
+      .tickCb (.adone 0), .tick] ++ [.complete 2 (.result 12), .tickCb (.adone 2)])).efs[2]? = some (.result v) ∧
+    (run Chain2 (init 3) ([.tick, .complete 1 (.result 11), .complete 0 (.result 10), .tickCb (.adone 1),
+      .tickCb (.adone 0), .tick] ++ [.complete 2 (.result 12), .tickCb (.adone 2)] ++ [.tick])).ctx.find? (·.1 = 0) = some (0, v) ∧
+    ∀ u, (0, u) ∈ (run Chain2 (init 3) ([.tick, .complete 1 (.result 11), .complete 0 (.result 10), .tickCb (.adone 1),
+      .tickCb (.adone 0), .tick] ++ [.complete 2 (.result 12), .tickCb (.adone 2)] ++ [.tick])).ctx → u = v :=
+  C10_next_step_finds_result_under_its_key Chain2 chain2_awDistinct 3
+    [.tick, .complete 1 (.result 11), .complete 0 (.result 10), .tickCb (.adone 1), .tickCb (.adone 0), .tick]
+    [.complete 2 (.result 12), .tickCb (.adone 2)] .tick
+    (by decide +kernel) (by decide +kernel) 2 1 [(2, 0)] (by decide +kernel) (Or.inl (by decide +kernel))
+    (by decide +kernel) (by decide +kernel) 2 0 (by simp) (by intro f' h; simpa using h)
+example : (run Chain2 (init 3) [.tick, .complete 1 (.result 11), .complete 0 (.result 10), .tickCb (.adone 1),
+      .tickCb (.adone 0), .tick, .complete 2 (.result 12), .tickCb (.adone 2), .tick]).ctx = [(0, 12), (1, 11)] := by
+  decide +kernel
+-- `Chain` with a pause requested while the stepping task is suspended on the wait (the wait carries the interruption when
+-- the result arrives: it is parked, the wait is re-armed, the pause enacted, and after `play` the step is activated):
+-- pre = [tick, pause] (second alternative of `hu`), mid = [complete 0, adone 0, tick, play], e = tick
+example : ∀ f k, (f, k) ∈ [(0, 0)] → FoundInCtx [(0, 0)]
+    (run Chain (init 1) ([.tick, .pause] ++ [.complete 0 (.result 5), .tickCb (.adone 0), .tick, .play])) f k :=
+  (C10_next_step_finds_every_result Chain chain_awDistinct 1 [.tick, .pause]
+    [.complete 0 (.result 5), .tickCb (.adone 0), .tick, .play] .tick
+    (by decide +kernel) (by decide +kernel) 1 0 [(0, 0)] (by decide +kernel) (Or.inr ⟨0, by decide +kernel⟩)
+    (by decide +kernel) (by decide +kernel)).2.2.2
+example : let c := run Chain (init 1) [.tick, .pause, .complete 0 (.result 5), .tickCb (.adone 0), .tick, .play, .tick]
+    (c.trace.map fun a => a.fn) = [1, 0] ∧ c.ctx = [(0, 5)] ∧ c.st = .finished none true := by decide +kernel
+-- failure (`Chain2`): future 0 fails with user error 3 and its callback is processed first (pre = [tick, complete 0 exc]);
+-- then future 1 completes with a result, its callback runs, the stepping task runs.
+-- `C10_failed_item_never_activates`: nothing activated, …
+example : (run Chain2 (init 3) ([.tick, .complete 0 (.exc (.user 3))] ++ .tickCb (.adone 0) ::
+      [.complete 1 (.result 11), .tickCb (.adone 1), .tick])).trace =
+    (run Chain2 (init 3) [.tick, .complete 0 (.exc (.user 3))]).trace :=
+  (C10_failed_item_never_activates Chain2 chain2_awDistinct 3 [.tick, .complete 0 (.exc (.user 3))]
+    [.complete 1 (.result 11), .tickCb (.adone 1), .tick] 0 (by decide +kernel) (by decide +kernel)
+    1 0 0 [(0, 0), (1, 1)] (.user 3) (by decide +kernel) (Or.inl (by decide +kernel)) (by simp) (by decide +kernel)
+    (by decide +kernel)).1
+-- … `C10_held_failure_excepts`: after [tick, complete 0 exc, adone 0] the wait holds the failure and the process is playing
+example : (ticks Chain2 1 (run Chain2 (init 3) [.tick, .complete 0 (.exc (.user 3)), .tickCb (.adone 0)])).st = .excepted (.user 3) :=
+  (C10_held_failure_excepts Chain2 3 [.tick, .complete 0 (.exc (.user 3)), .tickCb (.adone 0)] (by decide +kernel)
+    1 0 none [(1, 1)] (.user 3) (by decide +kernel) (Or.inl (by decide +kernel)) (by decide +kernel) (by decide +kernel)
+    (by decide +kernel)).1
+example : let c := run Chain2 (init 3) [.tick, .complete 0 (.exc (.user 3)), .tickCb (.adone 0), .complete 1 (.result 11),
+      .tickCb (.adone 1), .tick]
+    c.st = .excepted (.user 3) ∧ (c.trace.map fun a => a.fn) = [0] := by decide +kernel
+-- a killed child is `exc killedErr`; a second failure does not replace the first
+example : (run Chain2 (init 3) [.tick, .complete 1 (.exc .killedErr), .complete 0 (.exc (.user 3)), .tickCb (.adone 1),
+      .tickCb (.adone 0), .tick]).st = .excepted .killedErr := by decide +kernel
+-- `C10_barrier_resume_ok`: a history WITH a resume that is well formed (`Chain`: the resume arrives when the only awaitable
+-- has been processed — it is ignored, the wait already holds its result)
+example : B10.histOk Chain (init 1) [.tick, .complete 0 (.result 5), .tickCb (.adone 0), .resume (some 9), .tick] = true ∧
+    ((run Chain (init 1) [.tick, .complete 0 (.result 5), .tickCb (.adone 0), .resume (some 9), .tick]).trace.map
+      fun a => (a.fn, a.args)) = [(1, []), (0, [])] := by decide +kernel
+end
 
 -- non-vacuity: two awaited futures completing in either order; the second step runs only after both callbacks ran
 section
